@@ -711,6 +711,18 @@ impl<'t> Glob<'t> {
         self.tree.as_ref().as_token().is_empty()
     }
 
+    /// Gets the text of the compiled regular expression (verification hook).
+    #[cfg(olson_sean_k_wax_verif)]
+    pub fn verif_pattern(&self) -> &str {
+        self.program.as_str()
+    }
+
+    /// Dumps the token tree in a canonical form (verification hook).
+    #[cfg(olson_sean_k_wax_verif)]
+    pub fn verif_tokens(&self) -> String {
+        self.tree.as_ref().as_token().verif_dump()
+    }
+
     fn compile<T>(tree: impl Borrow<T>) -> Result<Regex, CompileError>
     where
         T: ConcatenationTree<'t>,
@@ -789,6 +801,18 @@ pub struct Any<'t> {
 impl<'t> Any<'t> {
     fn compile(token: &Token<'t, ()>) -> Result<Regex, CompileError> {
         encode::compile::<Token<_>>(token)
+    }
+
+    /// Gets the text of the compiled regular expression (verification hook).
+    #[cfg(olson_sean_k_wax_verif)]
+    pub fn verif_pattern(&self) -> &str {
+        self.program.as_str()
+    }
+
+    /// Dumps the token tree in a canonical form (verification hook).
+    #[cfg(olson_sean_k_wax_verif)]
+    pub fn verif_tokens(&self) -> String {
+        self.tree.as_ref().as_token().verif_dump()
     }
 }
 
